@@ -43,7 +43,9 @@ def tus(have):
         "rs_a": ("rs.cpp", d("RS_GROUP=1", "BIN_MODE_MASK=3")), "rs_b": ("rs.cpp", d("RS_GROUP=1", "BIN_MODE_MASK=12")),
         "rsz": ("rs.cpp", d("RS_GROUP=2")),
         "un": ("un.cpp", d()), "img": ("img.cpp", d()),
+        "xbin": ("xbin.cpp", d("BIN_MODE_MASK=9")),          # modes aa, ca
     })
+    t["B_xbin"] = ("xbin.cpp", d("BIN_MODE_MASK=1", "C14_LIST_B"))
     # the same sources compiled for the second type list
     for name in ("xf1", "xf2", "xf4", "un", "img"):
         t["B_" + name] = (t[name][0], t[name][1] + ["C14_LIST_B"])
@@ -56,7 +58,7 @@ def route(op):
     if w[0] == "B":
         r = route(" ".join(w[1:]))
         if r in ("copy_a", "copy_b", "equal_a", "equal_b", "ccopyx_a", "ccopyx_b"): r = r[:-2]
-        return "B_" + r if r in ("xf1", "xf2", "xf4", "copy", "equal", "ccopyx", "un", "img") else None
+        return "B_" + r if r in ("xf1", "xf2", "xf4", "copy", "equal", "ccopyx", "un", "img", "xbin") else None
     if w[0] == "xf":
         o = w[5]
         if o in ("id",) + tuple(GEOM): return "xf1"
@@ -67,7 +69,8 @@ def route(op):
     if w[0] in ("copy", "equal", "ccopy", "ccopyx", "rs"):
         return w[0] + ("_a" if w[1] in ("aa", "ka") else "_b")
     if w[0] == "rsz": return "rsz"
-    if w[0] in ("fill", "foreach"): return "un"
+    if w[0] in ("xcopy", "xequal"): return "xbin"
+    if w[0] in ("fill", "foreach", "xfill", "xforeach"): return "un"
     if w[0] == "img": return "img"
     return None
 
@@ -203,7 +206,31 @@ def gen_ops(ctx):
             for (w, h) in shapes(reps):
                 ops.append("fill %s %s %d %d %d %d %d %d %d" % (T, P, w, h, seed(), r.below(65536), r.below(65536), r.below(65536), r.below(65536)))
         for (w, h) in [(0, 0)] + shapes(reps + 1): ops.append("foreach %s %d %d %d" % (T, w, h, seed()))
+    # ---- algorithms THROUGH a lifted transformation (the algorithm's visit runs on the mapped type list)
+    def kinds(w, h):
+        return [("fliplr", 0, 0), ("subs", r.range(1, 3), r.range(1, 3)), ("sub", r.range(0, w - 1), r.range(0, h - 1))]
+    for (Ts, Ps, pre) in ((L7, ["g8", "bgr8", "rgb16"], ""), (LB, ["g16", "argb8", "rgb16"], "B ")):
+        for T in Ts:
+            for P in Ps:
+                (w, h) = (r.range(2, hi), r.range(2, hi))
+                for (k, a, b) in kinds(w, h):
+                    ops.append("%sxfill %s %s %d %d %d %s %d %d %d %d %d %d" % (pre, T, P, w, h, seed(), k, a, b, r.below(65536), r.below(65536), r.below(65536), r.below(65536)))
+            (w, h) = (r.range(2, hi), r.range(2, hi))
+            for (k, a, b) in kinds(w, h): ops.append("%sxforeach %s %d %d %d %s %d %d" % (pre, T, w, h, seed(), k, a, b))
+    # ---- binary algorithms on RESULTS of lifted transformations: every ordered pair (both visits on mapped lists of step views)
+    for (Ts, modes, pre) in ((L7, ("aa", "ca"), ""), (LB, ("aa",), "B ")):
+        for T1 in Ts:
+            for T2 in Ts:
+                mode = modes[r.below(len(modes))]
+                (w, h) = (r.range(2, hi), r.range(1, hi))
+                ops.append("%sxcopy %s %s %s %d %d %d %d %d %d -1" % (pre, mode, T1, T2, w, h, w, h, seed(), seed()))
+                mode = modes[r.below(len(modes))]
+                (w, h) = (r.range(2, hi), r.range(1, hi)); s1 = seed(); kind = r.below(3)
+                ops.append("%sxequal %s %s %s %d %d %d %d %d %d %d" % (pre, mode, T1, T2, w, h, w, h, s1, s1 if kind < 2 else seed(), r.range(0, w * h - 1) if kind == 1 else -1))
     # ---- any_image / any_image_view as values
+    ops.append("img default"); ops.append("B img default")
+    for T in L7: ops.append("img atc %s" % T)
+    for T in LB: ops.append("B img atc %s" % T)
     for T in L7:
         for (w, h) in [(0, 0), (0, 2), (3, 0)] + shapes(reps + 1): ops.append("img dims %s %d %d %d" % (T, w, h, seed()))
         for (w, h) in [(0, 0)] + shapes(reps + 1): ops.append("img copy %s %d %d %d" % (T, w, h, seed()))
@@ -218,6 +245,12 @@ def gen_ops(ctx):
             else: ops.append("img eq %s %s %d %d %d %d %d %d %d" % (T, T0, w, h, w, h, s, s if kind < 2 else seed(), r.range(0, w * h - 1) if kind == 1 else -1))
             (w, h) = shapes(1)[0]
             ops.append("img vcopy %s %s %d %d %d" % (T, T0, w, h, seed()))
+            # any_image_view assigned from / constructed from a CONCRETE view, or from a view of a sub-list; deprecated apply_operation
+            (w, h) = shapes(1)[0]
+            hows = ["conc", "ctor"] + (["subset"] if T in ("g8", "rgb8") else [])
+            ops.append("img vassign %s %s %d %d %d %s" % (T, T0, w, h, seed(), hows[r.below(len(hows))]))
+            (w, h) = shapes(1)[0]
+            ops.append("img applyop %s %s %d %d %d" % (T, T0, w, h, seed()))
         for how in ("xy", "pt", "al"):
             (w, h), (w2, h2) = shapes(2)
             ops.append("img recreate %s %d %d %d %d %d %s" % (T, w, h, seed(), w2, h2, how))
@@ -253,6 +286,10 @@ def gen_ops(ctx):
             ops.append("B img eq %s %s %d %d %d %d %d %d %d" % (T, T2, w, h, w, h, s, s if kind < 2 else seed(), r.range(0, w * h - 1) if kind == 1 else -1))
             (w, h) = shapes(1)[0]
             ops.append("B img vcopy %s %s %d %d %d" % (T, T2, w, h, seed()))
+            (w, h) = shapes(1)[0]
+            ops.append("B img vassign %s %s %d %d %d %s" % (T, T2, w, h, seed(), ("conc", "ctor")[r.below(2)]))
+            (w, h) = shapes(1)[0]
+            ops.append("B img applyop %s %s %d %d %d" % (T, T2, w, h, seed()))
         for P in ("g16", "argb8", "rgba8", "cmyk8", "rgb16"):
             for (w, h) in shapes(reps):
                 ops.append("B fill %s %s %d %d %d %d %d %d %d" % (T, P, w, h, seed(), r.below(65536), r.below(65536), r.below(65536), r.below(65536)))
@@ -269,9 +306,13 @@ def nontrivial(op):
     if w[0] == "B": w = w[1:]
     if w[0] == "xf": return int(w[2]) * int(w[3]) >= 2 and w[5] != "id"
     if w[0] == "xf2": return True
-    if w[0] in ("copy", "equal", "ccopy", "ccopyx", "rs", "rsz"): return int(w[6]) * int(w[7]) >= 2 or not compat(w[2], w[3])
+    if w[0] in ("copy", "equal", "ccopy", "ccopyx", "rs", "rsz", "xcopy", "xequal"): return int(w[6]) * int(w[7]) >= 2 or not compat(w[2], w[3])
+    if w[0] == "xfill": return True
+    if w[0] == "xforeach": return True
     if w[0] == "fill": return int(w[3]) * int(w[4]) >= 2 or not compat(w[1], w[2])
     if w[0] == "foreach": return int(w[2]) * int(w[3]) >= 2
+    if w[0] == "img" and w[1] in ("default", "atc"): return False
+    if w[0] == "img" and w[1] == "applyop": return int(w[4]) * int(w[5]) >= 2
     if w[0] == "img": return w[1] != "dims" and not (w[1] == "copy" and int(w[3]) * int(w[4]) == 0)
     return False
 
@@ -322,7 +363,9 @@ def run(ctx, ops=None):
              "alternatives x every overload shape (any/any, const any/any, any/concrete, concrete/any) of copy_pixels, equal_pixels, copy_and_convert_pixels "
              "(default and user converter), resample_pixels and resize_view, every alternative x every fill value type, for_each_pixel, operands of different dimensions (incompatible => bad_cast; "
              "compatible => the concrete assertion, matched in forked children), a STATEFUL user converter, and copy / assignment / "
-             "equality / recreate of any_image and any_image_view; shapes and contents seeded by VERIF_SEED. non-trivial = more than one pixel involved or the "
+             "equality / recreate / default construction of any_image and any_image_view, any_image_view assignment from a concrete view and from a sub-list view, "
+             "the deprecated apply_operation, at_c (dynamic_at_c.hpp), fill_pixels / for_each_pixel THROUGH a lifted flip / subsample / subimage and copy_pixels / equal_pixels "
+             "on two lifted-transformed views for every ordered pair (visits on mapped type lists); shapes and contents seeded by VERIF_SEED. non-trivial = more than one pixel involved or the "
              "bad_cast path is exercised (distinct op lines counted); the judge compares the run-time typed result with the concrete call of the real code",
         samples=samples, distinct_nontrivial=distinct, assumptions=ASSUME, trusted_base=vlib.TRUSTED_BASE + [
             "C14: the Lean model is thin (dispatch only); the weight of this check is the differential correspondence against the concrete operation"],
